@@ -607,7 +607,7 @@ class NDCubeBase(NDCubeABC, astropy.nddata.NDData, NDCubeSlicingMixin):
         no_op, points, wcs = utils.cube.sanitize_crop_inputs(points, wcs)
         # Quit out early if we are no-op
         if no_op:
-            return tuple([slice(None)] * wcs.pixel_n_dim)
+            return tuple([slice(None)] * self.data.ndim)
         else:
             comp = [c[0] for c in wcs.world_axis_object_components]
             # Trim to unique component names - `np.unique(..., return_index=True)
@@ -640,7 +640,7 @@ class NDCubeBase(NDCubeABC, astropy.nddata.NDData, NDCubeSlicingMixin):
         no_op, points, wcs = utils.cube.sanitize_crop_inputs(points, wcs)
         # Quit out early if we are no-op
         if no_op:
-            return tuple([slice(None)] * wcs.pixel_n_dim)
+            return tuple([slice(None)] * self.data.ndim)
         # Convert float inputs to quantities using units.
         n_coords = len(points[0])
         if units is None:
